@@ -944,6 +944,109 @@ impl Session {
                     }
                 }
             }
+            "budget" => {
+                // Hidden process-wide budgets: many contexts alive at once, many exports from one context, many failed
+                // setups in a row. The same setup (same scripted RNG bytes) must give the same export before, during and
+                // after.
+                let su = self.suite.as_ref().unwrap();
+                let n = a.u("n") as usize;
+                let kind = a.s("kind").to_string();
+                let (pkr, skr, rngb) = (a.b("pkr").to_vec(), a.b("skr").to_vec(), a.b("rng").to_vec());
+                let m = ModeArgs::default();
+                let fresh = |su: &dyn SuiteOps| -> String {
+                    let mut r = ScriptRng::new(rngb.clone());
+                    match su.setup_s(&m, &pkr, b"budget", &mut r) {
+                        Ok((enc, cs)) => {
+                            let mut o = [0u8; 32];
+                            match cs.export(b"b", &mut o) {
+                                Ok(()) => format!("{}:{}", out(&enc), out(&o)),
+                                Err(e) => format!("export_err:{}", err_name(&e)),
+                            }
+                        }
+                        Err(e) => format!("setup_err:{}", err_name(&e.0)),
+                    }
+                };
+                let before = fresh(su.as_ref());
+                let mut bad = 0u64;
+                let mut first_bad = String::new();
+                let mut note = |what: String, bad: &mut u64| {
+                    *bad += 1;
+                    if first_bad.is_empty() {
+                        first_bad = what;
+                    }
+                };
+                match kind.as_str() {
+                    "live" => {
+                        let mut held: Vec<Box<dyn CtxS>> = Vec::with_capacity(n);
+                        for i in 0..n {
+                            let mut r = ScriptRng::new(rngb.clone());
+                            match su.setup_s(&m, &pkr, b"budget", &mut r) {
+                                Ok((_, cs)) => held.push(cs),
+                                Err(e) => {
+                                    note(format!("setup_{}_failed_{}", i, err_name(&e.0)), &mut bad);
+                                    break;
+                                }
+                            }
+                        }
+                        let during = fresh(su.as_ref());
+                        if during != before {
+                            note(format!("with_{}_alive:{}", held.len(), during), &mut bad);
+                        }
+                        for i in [0usize, held.len() / 2, held.len().saturating_sub(1)] {
+                            if let Some(c) = held.get(i) {
+                                let mut o = [0u8; 32];
+                                let r = c.export(b"b", &mut o);
+                                if r.is_err() || !before.ends_with(&out(&o)) {
+                                    note(format!("held_{}_differs", i), &mut bad);
+                                }
+                            }
+                        }
+                        drop(held);
+                    }
+                    "exports" => {
+                        let mut r = ScriptRng::new(rngb.clone());
+                        if let Ok((_, cs)) = su.setup_s(&m, &pkr, b"budget", &mut r) {
+                            for i in 0..n {
+                                let mut o = [0u8; 32];
+                                let r = cs.export(b"b", &mut o);
+                                if r.is_err() || !before.ends_with(&out(&o)) {
+                                    note(format!("export_{}_differs", i), &mut bad);
+                                    break;
+                                }
+                            }
+                        }
+                    }
+                    _ => {
+                        // failed receiver setups: an encapsulated key the KEM must refuse (all zero for X25519, 04||0.. for NIST)
+                        let bad_enc = a.b("badenc").to_vec();
+                        for i in 0..n {
+                            if su.setup_r(&m, &skr, &bad_enc, b"budget").is_ok() {
+                                note(format!("bad_enc_accepted_at_{}", i), &mut bad);
+                                break;
+                            }
+                        }
+                        // a genuine receiver must still work
+                        let mut r = ScriptRng::new(rngb.clone());
+                        if let Ok((enc, cs)) = su.setup_s(&m, &pkr, b"budget", &mut r) {
+                            match su.setup_r(&m, &skr, &enc, b"budget") {
+                                Ok(cr) => {
+                                    let (mut x, mut y) = ([0u8; 32], [1u8; 32]);
+                                    let _ = (cs.export(b"b", &mut x), cr.export(b"b", &mut y));
+                                    if x != y {
+                                        note("receiver_after_failures_differs".into(), &mut bad);
+                                    }
+                                }
+                                Err(e) => note(format!("receiver_after_failures:{}", err_name(&e.0)), &mut bad),
+                            }
+                        }
+                    }
+                }
+                let after = fresh(su.as_ref());
+                if after != before {
+                    note(format!("afterwards:{}", after), &mut bad);
+                }
+                f.ok().kv("mism", bad).kv("first", if first_bad.is_empty() { "-".to_string() } else { first_bad.replace(' ', "_") }).kv("n", n);
+            }
             "key_mill" => {
                 let (made, bad) = self.kem.as_ref().unwrap().key_mill(a.b("ikm"), a.u("n"), (a.u("window") as usize).clamp(2, 200));
                 f.ok().kv("made", made).kv("mism", bad);
